@@ -194,7 +194,8 @@ is eventually delivered drives `k` to 0 after exactly 4 effective deliveries: th
 quiescent, the library device (lower NAME) holds `a` and the foreign node has moved to `nx f0 ≠ a`.
 The mirror case (library with the higher NAME moves) is `C03_converges_two_nodes_lib_moves`. Not covered (still partial,
 `C03_converges_partial`): more than two nodes, several devices per instance. Two library instances against each other:
-`C03_converges_two_nodes_lib_lib`; with polls and clock advances interleaved: `C03_converges_two_nodes_timed`. -/
+`C03_converges_two_nodes_lib_lib`; with polls and clock advances interleaved: `C03_converges_two_nodes_timed` (library vs
+library), `C03_converges_two_nodes_timed_lib_keeps` / `_timed_lib_moves` (library vs foreign node). -/
 theorem C03_converges_two_nodes (b0 : Bus) (n0 : Nat) (f0 : Iso.Node) (nx : Iso.Node → Nat)
     (hlt : n0 < f0.name) (hn1 : f0.name < 2^64) (ha : f0.addr ≤ 251) (hnx : ∀ f, nx f < 256) (hne : nx f0 ≠ f0.addr)
     (hnext : b0.next = nx) (h0 : Two b0 n0 f0.addr f0 [(f0.name, f0.addr)] [(n0, f0.addr)]) (evs : List Nat) :
@@ -284,6 +285,46 @@ theorem C03_converges_two_nodes_timed (b0 : Bus) (n0 n1 a e0 : Nat) (y0 : Inst) 
   · obtain ⟨k', rfl⟩ : ∃ k', k = k' + 1 := ⟨k - 1, by omega⟩
     exact phT_pending hp
   · subst hk; exact phT_zero ha hp
+
+/-- **C03_converges_two_nodes_timed_lib_keeps.** `C03_converges_two_nodes` (library device with the lower NAME against a
+foreign node) for schedules of deliveries, polls of either node and clock advances by any amount: polls and advances keep
+every phase (they send nothing and move nothing; the library's claim timer may expire, which is irrelevant for a device that
+keeps its address; a started foreign node ignores a poll), so `k` + effective deliveries = 4 and the end state are the same. -/
+theorem C03_converges_two_nodes_timed_lib_keeps (b0 : Bus) (n0 : Nat) (f0 : Iso.Node) (nx : Iso.Node → Nat)
+    (hlt : n0 < f0.name) (hn1 : f0.name < 2^64) (ha : f0.addr ≤ 251) (hnx : ∀ f, nx f < 256) (hne : nx f0 ≠ f0.addr)
+    (hnext : b0.next = nx) (h0 : Two b0 n0 f0.addr f0 [(f0.name, f0.addr)] [(n0, f0.addr)]) (evs : List Sch) :
+    ∃ k, k + effS b0 evs = 4 ∧ PhL n0 f0 nx k (run b0 (evs.map Sch.toEv)) ∧
+      (k ≠ 0 → ∃ i, i < (run b0 (evs.map Sch.toEv)).n ∧ ((run b0 (evs.map Sch.toEv)).node i).inbox ≠ []) ∧
+      (k = 0 → quiescent (run b0 (evs.map Sch.toEv)) ∧
+        claimants ((run b0 (evs.map Sch.toEv)).node 0).kind = [(n0, f0.addr)] ∧
+        claimants ((run b0 (evs.map Sch.toEv)).node 1).kind = [(f0.name, nx f0)]) := by
+  obtain ⟨k, hp, he⟩ := converge_runS (PhL n0 f0 nx) (fun k b ev h => phL_stepS n0 f0 nx hlt hn1 ha hnx hne k b h ev) evs 4 b0
+    ⟨hnext, h0⟩
+  refine ⟨k, he, hp, fun hk => ?_, fun hk => ?_⟩
+  · obtain ⟨k', rfl⟩ : ∃ k', k = k' + 1 := ⟨k - 1, by omega⟩
+    exact phL_pending hp
+  · subst hk; exact phL_zero hp
+
+/-- **C03_converges_two_nodes_timed_lib_moves.** The mirror case `C03_converges_two_nodes_lib_moves` for schedules of
+deliveries, polls of either node and clock advances. As in `C03_converges_two_nodes_timed`, a poll can let the library
+device's claim timer run out before it loses, which moves its end-of-search address from `e0` to `updEnd a`; so at `k = 0`
+(after exactly 4 effective deliveries) the foreign node holds `a`, the library device is at `r ≠ a` with `r = nxt a e0` or
+`r = nxt a (updEnd a) = (a+1) % 252`, and the change is latched. -/
+theorem C03_converges_two_nodes_timed_lib_moves (b0 : Bus) (n0 e0 : Nat) (f0 : Iso.Node) (x0 : Inst) (d0 : Dev) (nx : Iso.Node → Nat)
+    (hgt : f0.name < n0) (hn1 : f0.name < 2^64) (ha : f0.addr ≤ 251) (hnx : ∀ f, nx f < 256)
+    (hnext : b0.next = nx) (hx0 : (b0.node 0).kind = .lib x0) (hd0 : x0.s.devs = [d0]) (he0 : d0.endSource = e0)
+    (h0 : Two b0 n0 f0.addr f0 [(f0.name, f0.addr)] [(n0, f0.addr)]) (evs : List Sch) :
+    ∃ k, k + effS b0 evs = 4 ∧ PhHt n0 f0 e0 nx k (run b0 (evs.map Sch.toEv)) ∧
+      (k ≠ 0 → ∃ i, i < (run b0 (evs.map Sch.toEv)).n ∧ ((run b0 (evs.map Sch.toEv)).node i).inbox ≠ []) ∧
+      (k = 0 → quiescent (run b0 (evs.map Sch.toEv)) ∧
+        (∃ r, R f0.addr e0 r ∧ r ≠ f0.addr ∧ claimants ((run b0 (evs.map Sch.toEv)).node 0).kind = [(n0, r)]) ∧
+        claimants ((run b0 (evs.map Sch.toEv)).node 1).kind = [(f0.name, f0.addr)] ∧ Chg (run b0 (evs.map Sch.toEv))) := by
+  obtain ⟨k, hp, he⟩ := converge_runS (PhHt n0 f0 e0 nx) (fun k b ev h => phHt_stepS n0 f0 e0 nx hgt hn1 ha hnx k b h ev) evs 4 b0
+    ⟨hnext, h0, x0, d0, hx0, hd0, Or.inl he0⟩
+  refine ⟨k, he, hp, fun hk => ?_, fun hk => ?_⟩
+  · obtain ⟨k', rfl⟩ : ∃ k', k = k' + 1 := ⟨k - 1, by omega⟩
+    exact phHt_pending hp
+  · subst hk; exact phHt_zero ha hp
 
 /-! ## the receive slots in front of the claim handler; a device without an address stays silent -/
 
@@ -492,5 +533,13 @@ deliveries, polls and a 300 ms clock advance in the middle of the contest -/
 def demoSch : List Sch := [.deliver 0, .adv 300, .poll 1, .deliver 1, .poll 0, .deliver 0, .adv 5, .deliver 1]
 example : ((run demoLL (demoSch.map Sch.toEv)).node 1).inbox = [] ∧
     claimants ((run demoLL (demoSch.map Sch.toEv)).node 1).kind = [(0x300, 0)] := by decide
+
+/-- the timed library-vs-foreign theorems on the concrete buses `demoTwo` / `demoTwoH` (hypotheses shown satisfiable above):
+schedules with polls and a 300 ms clock advance in the middle of the contest -/
+def demoSch2 : List Sch := [.deliver 1, .adv 300, .poll 0, .poll 1, .deliver 0, .deliver 0, .adv 7, .deliver 1]
+example : claimants ((run demoTwo (demoSch2.map Sch.toEv)).node 0).kind = [(0x300, 251)] ∧
+    claimants ((run demoTwo (demoSch2.map Sch.toEv)).node 1).kind = [(0x400, 0)] ∧
+    claimants ((run demoTwoH (demoSch2.map Sch.toEv)).node 0).kind = [(0x300, 0)] ∧
+    claimants ((run demoTwoH (demoSch2.map Sch.toEv)).node 1).kind = [(0x200, 251)] := by decide
 
 end N2k.C03
